@@ -2,6 +2,7 @@
    Property theorems only: each is closed by [exact <lemma>] and followed by Print Assumptions.
    net/mail.ParseAddress, Address.String and Msg.encodeString are arguments (oracles); the hypotheses
    about them (H-addr) are stated in the theorems that need them and validated by the harness. *)
+From Coq Require Import String.
 From Verif Require Import Bytes HeaderFold MsgAddr.
 From VerifGen Require Import Gen.
 From VerifProofs Require Import MsgAddrProofs AddrFieldProofs.
@@ -21,6 +22,54 @@ Print Assumptions C06_source_bcc_not_rendered.
 Theorem C06_source_setters : addr_setters = expected_setters.
 Proof. exact gen_addr_setters. Qed.
 Print Assumptions C06_source_setters.
+
+(* repaired tree (proposed_fixes/C02-format-display-name.diff): all seven ...Format setters escape the display
+   name with quotedPairs before interpolating it into the format; quotedPairs' replacement pairs *)
+Theorem C06_source_format_escaped :
+  forallb (fun x => snd x) addr_format_escaped = true /\ length addr_format_escaped = 7%nat /\
+  quoted_pairs_literals = [[92; 34]; [92]; [92; 92]; [34]; [92; 34]].
+Proof. exact (conj (f_equal (forallb (fun x => snd x)) gen_format_escaped) (conj (f_equal (@length _) gen_format_escaped) gen_quoted_pairs_literals)). Qed.
+Print Assumptions C06_source_format_escaped.
+
+(* For EVERY display name made of bytes an RFC 5322 quoted-string can hold (TAB, SP, printable ASCII incl.
+   backslash and DQUOTE, UTF-8 non-ASCII) and every address string: the RFC 5322 quoted-string reader applied
+   to what a ...Format setter builds returns exactly the name argument (escape / unescape round trip). *)
+Theorem C06_format_name_roundtrip : forall name address, forallb qs_byte name = true ->
+  read_display_name (format_addr name address) = Some name.
+Proof. exact format_name_roundtrip. Qed.
+Print Assumptions C06_format_name_roundtrip.
+
+(* ... and a name with any other byte (CR, LF, NUL, the other C0 controls except TAB, DEL) is no quoted-string:
+   the call is refused (net/mail rejects exactly these bytes, too — validated by the harness) *)
+Theorem C06_format_name_rejected : forall name address, forallb qs_byte name = false ->
+  read_display_name (format_addr name address) = None.
+Proof. exact format_name_rejected. Qed.
+Print Assumptions C06_format_name_rejected.
+
+(* Hence after ANY call sequence a successful Add...Format(name, address) appends one entry whose stored display
+   name is the name argument, and FromFormat / EnvelopeFromFormat / ReplyToFormat leave exactly one entry with it.
+   H-addr: Parse(String a) = a;  H-name: on DQUOTE..DQUOTE SP LESS-THAN.. the oracle's Name is what the RFC 5322 reader reads. *)
+Theorem C06_format_call_stores_name : forall parse addr_string encode_string,
+  (forall s a, parse s = Some a -> parse (addr_string a) = Some a) ->
+  (forall s a n, parse s = Some a -> read_display_name s = Some n -> a_name a = n) ->
+  forall calls name address, forallb qs_byte name = true ->
+  let m := run parse addr_string encode_string calls [] in
+  (forall s, slot_hdr s <> hdr_from ->
+     snd (apply_call parse addr_string encode_string m (CAddFormat s name address)) = true ->
+     exists a, lookup (fst (apply_call parse addr_string encode_string m (CAddFormat s name address))) (slot_hdr s)
+                 = lookup m (slot_hdr s) ++ [a] /\ a_name a = name) /\
+  (forall c, c = CFromFormat name address \/ c = CEnvFromFormat name address \/ c = CReplyToFormat name address ->
+     snd (apply_call parse addr_string encode_string m c) = true ->
+     exists a, lookup (fst (apply_call parse addr_string encode_string m c)) (call_key c) = [a] /\ a_name a = name).
+Proof. exact format_call_stores_name. Qed.
+Print Assumptions C06_format_call_stores_name.
+
+(* the unrepaired tree, kept as documentation: FromFormat(`C:\dir\file`, ..) denotes "C:dirfile", a DQUOTE ends the name *)
+Theorem C06_format_name_before_fix_refuted :
+  read_display_name (format_addr_old (bs "C:\dir\file") (bs "a@x.test")) = Some (bs "C:dirfile") /\
+  read_display_name (format_addr_old (bs "say ""hi""") (bs "a@x.test")) = None.
+Proof. exact format_name_before_fix_refuted. Qed.
+Print Assumptions C06_format_name_before_fix_refuted.
 
 (* After ANY sequence of address-setter calls: the envelope recipients are the addresses of To, Cc, Bcc
    in that order, one per stored occurrence; the envelope sender is the envelope-from if set, else From. *)
